@@ -12,6 +12,8 @@ LICENSE file or <http://www.boost.org/LICENSE_1_0.txt>
 #include <stdint.h>
 #include <stdio.h>
 
+#include <algorithm>
+
 #include <gdstk/allocator.hpp>
 #include <gdstk/array.hpp>
 #include <gdstk/clipper_tools.hpp>
@@ -88,7 +90,83 @@ static inline bool path_less(const SortingPath& p1, const SortingPath& p2) {
     return point_less(*p1.min_point, *p2.min_point);
 }
 
-static void link_holes(ClipperLib::PolyNode* node, ErrorCode& error_code) {
+// Clipper joins fragments of the result that share an edge into a single path that visits some
+// points twice (e.g. a hole and a neighbouring island).  Split such a path into its simple loops;
+// a path without repeated points is returned unchanged.
+static void split_loops(const ClipperLib::Path& path, ClipperLib::Paths& loops) {
+    ClipperLib::Path repeated(path);
+    std::sort(repeated.begin(), repeated.end(), point_less);
+    uint64_t num = 0;
+    for (uint64_t i = 1; i < repeated.size(); i++)
+        if (repeated[i] == repeated[i - 1] && (num == 0 || !(repeated[num - 1] == repeated[i])))
+            repeated[num++] = repeated[i];
+    repeated.resize(num);
+    if (num == 0) {
+        loops.push_back(path);
+        return;
+    }
+    ClipperLib::Path stack;
+    for (ClipperLib::Path::const_iterator pt = path.begin(); pt != path.end(); pt++) {
+        uint64_t k = 0;
+        if (std::binary_search(repeated.begin(), repeated.end(), *pt, point_less)) {
+            k = stack.size();
+            while (k > 0 && !(stack[k - 1] == *pt)) k--;
+        }
+        if (k > 0) {
+            // stack[k - 1] is the same point: what follows it closes a loop
+            if (stack.size() - k >= 2)
+                loops.push_back(ClipperLib::Path(stack.begin() + (k - 1), stack.end()));
+            stack.resize(k);
+        } else {
+            stack.push_back(*pt);
+        }
+    }
+    if (stack.size() >= 3) loops.push_back(stack);
+}
+
+// Clipper can flag a fragment of the result that merely shares an edge or a vertex with its
+// neighbour as a hole of that neighbour.  A real hole lies inside its parent contour.  Hole
+// vertices frequently lie on the contour (up to rounding), so the decision is taken with a point
+// strictly inside the hole: the centroid of the ear at its lexicographically smallest (hence
+// convex) vertex v, or, if other vertices lie inside that ear, the middle of the diagonal from v
+// to the one nearest to v.
+static bool hole_is_inside(const ClipperLib::Path& hole, const ClipperLib::Path& contour) {
+    const uint64_t n = hole.size();
+    uint64_t iv = 0;
+    for (uint64_t i = 1; i < n; i++)
+        if (point_less(hole[i], hole[iv])) iv = i;
+    const ClipperLib::IntPoint& v = hole[iv];
+    const ClipperLib::IntPoint& u = hole[(iv + n - 1) % n];
+    const ClipperLib::IntPoint& w = hole[(iv + 1) % n];
+    const double ux = (double)(u.X - v.X), uy = (double)(u.Y - v.Y);
+    const double wx = (double)(w.X - v.X), wy = (double)(w.Y - v.Y);
+    const double det = ux * wy - uy * wx;
+    double x = (ux + wx) / 3, y = (uy + wy) / 3;
+    if (det != 0) {
+        double best = 1;
+        for (uint64_t i = 0; i < n; i++) {
+            const double px = (double)(hole[i].X - v.X), py = (double)(hole[i].Y - v.Y);
+            const double a = (px * wy - py * wx) / det, b = (ux * py - uy * px) / det;
+            if (a > 0 && b > 0 && a + b < best) {
+                best = a + b;
+                x = 0.5 * px;
+                y = 0.5 * py;
+            }
+        }
+    }
+    x += (double)v.X;
+    y += (double)v.Y;
+    bool inside = false;
+    for (uint64_t i = 0, j = contour.size() - 1; i < contour.size(); j = i++) {
+        const double xi = (double)contour[i].X, yi = (double)contour[i].Y;
+        const double xj = (double)contour[j].X, yj = (double)contour[j].Y;
+        if ((yi > y) != (yj > y) && x < (xj - xi) * (y - yi) / (yj - yi) + xi) inside = !inside;
+    }
+    return inside;
+}
+
+static void link_holes(ClipperLib::PolyNode* node, double scaling, Array<Polygon*>& polygon_array,
+                       ErrorCode& error_code) {
     /*
     static int dbg_counter = 0;
     char dbg_name[16];
@@ -119,10 +197,22 @@ static void link_holes(ClipperLib::PolyNode* node, ErrorCode& error_code) {
 
     ClipperLib::Path* contour = &node->Contour;
     uint64_t count = contour->size();
+    ClipperLib::Paths loops;
     for (ClipperLib::PolyNodes::iterator child = node->Childs.begin(); child != node->Childs.end();
-         child++) {
-        count += (*child)->Contour.size() + 3;
-        SortingPath sp = {&(*child)->Contour};
+         child++)
+        split_loops((*child)->Contour, loops);
+    const double contour_area = ClipperLib::Area(*contour);
+    for (ClipperLib::Paths::iterator loop = loops.begin(); loop != loops.end(); loop++) {
+        const double area = ClipperLib::Area(*loop);
+        if (area >= 0 || -area > contour_area || !hole_is_inside(*loop, *contour)) {
+            // Not a hole of this contour (holes are clockwise, smaller than it and lie inside
+            // it) but an independent piece of the result.
+            if (area < 0) ClipperLib::ReversePath(*loop);
+            if (area != 0) polygon_array.append(path_to_polygon(*loop, scaling));
+            continue;
+        }
+        count += loop->size() + 3;
+        SortingPath sp = {&(*loop)};
         sp.min_point = sp.path->begin();
         for (ClipperLib::Path::iterator point = sp.path->begin(); point != sp.path->end();
              point++) {
@@ -186,7 +276,7 @@ static void tree_to_polygons(const ClipperLib::PolyTree& tree, double scaling,
     while (node) {
         if (!node->IsHole()) {
             if (node->ChildCount() > 0) {
-                link_holes(node, error_code);
+                link_holes(node, scaling, polygon_array, error_code);
             }
             polygon_array.append(path_to_polygon(node->Contour, scaling));
         }
